@@ -52,7 +52,7 @@ func thresholds(r *ev.Run) {
 	Y := felt.FromUint64[starknet.Address](2)
 	A := felt.FromUint64[starknet.Hash](77)
 	var mu sync.Mutex
-	var pairs, quorums, nonfaulty int64
+	var pairs, quorums, nonfaulty, nextHeight int64
 	bad := func(N, x uint, what string, got, want bool) {
 		r.Violate("threshold "+what, map[string]any{"part": "C thresholds", "N": N, "x": x, "check": what, "got": got, "want": want,
 			"q_ref": (2*N + 2) / 3, "f_ref": (N - 1) / 3})
@@ -71,7 +71,7 @@ func thresholds(r *ev.Run) {
 		if !(N-f >= q) {
 			r.Violate("threshold liveness", map[string]any{"N": N, "q": q, "f": f})
 		}
-		var lp, lq, lnf int64
+		var lp, lq, lnf, lv int64
 		for x := uint(0); x <= N; x++ {
 			vals := &powVals{addrs: []starknet.Address{X, Y}, powers: []uint{x, N - x}, total: N}
 			vc := votecounter.New[starknet.Value](vals, 0)
@@ -114,7 +114,26 @@ func thresholds(r *ev.Run) {
 			chk("future-height-precommit-quorum", vc.HasFuturePrecommitQuorum(1, 0, &A), wantQ)
 			// the next height (entered through StartNewHeight, not through New): same thresholds for the same total, and
 			// the thresholds of the NEW total when the validator set changes (total N+1, X keeps x)
-			for _, grow := range []uint{0, 1} {
+			// ... and when the SENDER's own power changes at the boundary (total unchanged: the other validator takes the
+			// difference): a vote for the next height that was buffered while the counter was still at this height weighs
+			// what its sender holds at the vote's OWN height (x1), not what it holds at the height the counter was in.
+			type variant struct {
+				grow uint
+				x1   uint
+				tag  string
+			}
+			vs := []variant{{0, x, ""}, {1, x, ""}}
+			if x+1 <= N {
+				vs = append(vs, variant{0, x + 1, ", sender's power +1"})
+			}
+			if x >= 1 {
+				vs = append(vs, variant{0, x - 1, ", sender's power -1"})
+			}
+			if N-x != x {
+				vs = append(vs, variant{0, N - x, ", powers swapped"})
+			}
+			for _, vr := range vs {
+				grow, x1 := vr.grow, vr.x1
 				N1 := N + grow
 				var q1, f1 uint
 				for q1 = 0; 3*q1 < 2*N1; q1++ {
@@ -122,14 +141,14 @@ func thresholds(r *ev.Run) {
 				for f1 = 0; 3*(f1+1) < N1; f1++ {
 				}
 				vals1 := &powVals{addrs: []starknet.Address{X, Y}, powers: []uint{x, N - x}, total: N}
-				if grow > 0 {
-					vals1.powers1, vals1.total1 = []uint{x, N1 - x}, N1
+				if grow > 0 || x1 != x {
+					vals1.powers1, vals1.total1 = []uint{x1, N1 - x1}, N1
 				}
 				vc1 := votecounter.New[starknet.Value](vals1, 0)
 				vc1.AddPrecommit(&starknet.Precommit{MessageHeader: hdr(1, 0, X), ID: &A}) // buffered for the next height
 				vc1.StartNewHeight()
-				tag := fmt.Sprintf(" [height entered by StartNewHeight, total %+d]", int(grow))
-				wq1, wnf1 := x >= q1, x > f1
+				tag := fmt.Sprintf(" [height entered by StartNewHeight, total %+d%s]", int(grow), vr.tag)
+				wq1, wnf1 := x1 >= q1, x1 > f1
 				chk("buffered-precommit-quorum"+tag, vc1.HasQuorumForVote(0, votecounter.Precommit, &A), wq1)
 				chk("add-prevote-accepted"+tag, vc1.AddPrevote(&starknet.Prevote{MessageHeader: hdr(1, 0, X), ID: &A}), true)
 				chk("prevote-quorum-for-value"+tag, vc1.HasQuorumForVote(0, votecounter.Prevote, &A), wq1)
@@ -137,7 +156,8 @@ func thresholds(r *ev.Run) {
 				vc1.AddPrevote(&starknet.Prevote{MessageHeader: hdr(1, 3, X), ID: &A})
 				chk("f+1-future-round"+tag, vc1.HasNonFaultyFutureMessage(3), wnf1)
 				vc1.AddPrevote(&starknet.Prevote{MessageHeader: hdr(1, 0, Y), ID: nil})
-				chk("nil-quorum"+tag, vc1.HasQuorumForVote(0, votecounter.Prevote, nil), N1-x >= q1)
+				chk("nil-quorum"+tag, vc1.HasQuorumForVote(0, votecounter.Prevote, nil), N1-x1 >= q1)
+				lv++
 			}
 			lp++
 			if wantQ {
@@ -151,13 +171,15 @@ func thresholds(r *ev.Run) {
 		pairs += lp
 		quorums += lq
 		nonfaulty += lnf
+		nextHeight += lv
 		mu.Unlock()
 	})
 	r.Set("C_threshold_max_total_power", int64(maxN))
 	r.Set("C_threshold_pairs", pairs)
 	r.Set("C_threshold_pairs_with_quorum", quorums)
 	r.Set("C_threshold_pairs_above_f", nonfaulty)
-	r.Add("evaluations", pairs*20)
+	r.Set("C_threshold_next_height_variants", nextHeight) // (N, x) x {same set, total +1, sender +1 / -1, powers swapped}
+	r.Add("evaluations", pairs*20+nextHeight*6)
 }
 
 // ---- C2: vote counter vs reference model, all sequences up to a depth ---------------------------
